@@ -67,7 +67,8 @@ static int nent;
 static int final_nl;
 static char fam;		/* P pool size, Z zone-name length, K key length, H high-bit keys */
 static long fam_ord;		/* the ordered coordinate of the family */
-static char srcpath[4300], srcpath2[4300], outpath[4300];
+static char srcpath[4300], srcpath2[4300], srcpath3[4300], outpath[4300];
+static int split_at2;		/* > 0: a third FILE argument starts at this line */
 static int split_at;		/* > 0: the first SPLIT_AT lines go to one file, the rest to a second FILE argument */
 static int ascending_p;	/* keys strictly ascending byte-wise */
 static int g_verbose;
@@ -114,6 +115,7 @@ mk_family(char f, long idx)
 
 	src_clear();
 	split_at = 0;
+	split_at2 = 0;
 	fam = f;
 	final_nl = !(idx & 1);
 	idx >>= 1;
@@ -195,6 +197,26 @@ mk_family(char f, long idx)
 		fam_ord = split_at;
 		return 1;
 	}
+	case 'G': {
+		/* two and three FILEs, each ascending on its own ({A B}, {C D}, {E F}), in every order of the files */
+		static const char *const gk[6] = {"A", "B", "C", "D", "E", "F"};
+		static const char *const gz[6] = {"Europe/Berlin", "Asia/Tokyo", "America/New_York", "Etc/UTC", "Asia/Kolkata", "Europe/Paris"};
+		static const int perm2[6][2] = {{0, 1}, {0, 2}, {1, 0}, {1, 2}, {2, 0}, {2, 1}};
+		static const int perm3[6][3] = {{0, 1, 2}, {0, 2, 1}, {1, 0, 2}, {1, 2, 0}, {2, 0, 1}, {2, 1, 0}};
+		int nf = idx < 6 ? 2 : 3;
+		if (idx >= 12) {
+			return 0;
+		}
+		for (int f = 0; f < nf; f++) {
+			int g = nf == 2 ? perm2[idx][f] : perm3[idx - 6][f];
+			src_add(gk[2 * g], gz[2 * g]);
+			src_add(gk[2 * g + 1], gz[2 * g + 1]);
+		}
+		split_at = 2;
+		split_at2 = nf == 3 ? 4 : 0;
+		fam_ord = idx;
+		return 1;
+	}
 	case 'H': {
 		/* every sorted set of <= 4 of the 7 keys with bytes >= 0x80 among them */
 		int cnt = 0;
@@ -224,7 +246,7 @@ static const char *const absent_probe[] = {"", "B", "K99999", "MM", "\xc3", "\xf
 static void
 fam_name(char *buf, size_t bsz)
 {
-	snprintf(buf, bsz, "family=%s final-newline=%s", fam == 'P' ? "pool-size" : fam == 'Z' ? "zone-name-length" : fam == 'K' ? "key-length" : fam == 'U' ? "key-order" : fam == 'F' ? "two-files" : "high-bit-keys",
+	snprintf(buf, bsz, "family=%s final-newline=%s", fam == 'P' ? "pool-size" : fam == 'Z' ? "zone-name-length" : fam == 'K' ? "key-length" : fam == 'U' ? "key-order" : fam == 'F' ? "two-files" : fam == 'G' ? "files-in-every-order" : "high-bit-keys",
 		 final_nl ? "yes" : "no");
 }
 
@@ -235,11 +257,11 @@ static long the_idx;
 static void
 compile_case(long i)
 {
-	char *argv[] = {"tzmap", "cc", "-o", outpath, srcpath, split_at ? srcpath2 : NULL, NULL};
+	char *argv[] = {"tzmap", "cc", "-o", outpath, srcpath, split_at ? srcpath2 : NULL, split_at2 ? srcpath3 : NULL, NULL};
 	(void)i;
 	c19->phase = PH_COMPILE;
 	optind = 0;
-	if (tzmap_main(split_at ? 6 : 5, argv) != 0) {
+	if (tzmap_main(split_at2 ? 7 : split_at ? 6 : 5, argv) != 0) {
 		/* a clean refusal; whether it is acceptable is the parent's business */
 		C19_CTR(c_ref, "compiler_refusals");
 		C19_INC(c_ref);
@@ -375,10 +397,11 @@ do_source(void)
 	}
 	ascending_p = 1;
 	for (int i = 0; i < nent; i++) {
-		if (split_at && i == split_at) {
+		if ((split_at && i == split_at) || (split_at2 && i == split_at2)) {
+			const char *np = i == split_at ? srcpath2 : srcpath3;
 			fclose(f);
-			if ((f = fopen(srcpath2, "w")) == NULL) {
-				perror(srcpath2);
+			if ((f = fopen(np, "w")) == NULL) {
+				perror(np);
 				exit(3);
 			}
 		}
@@ -426,7 +449,7 @@ main(int argc, char *argv[])
 	EX_CTR(c_traces, "traces");
 	EX_CTR(c_nontriv, "nontrivial");
 	const char *rundir = getenv("VERIF_RUNDIR");
-	static const char fams[] = "HUFZKP";
+	static const char fams[] = "HUFGZKP";
 	uint64_t slice = 0;
 
 	ex_init(argc, argv);
@@ -440,6 +463,7 @@ main(int argc, char *argv[])
 	snprintf(srcpath, sizeof(srcpath), "%s/c19ms.%d.src", rundir ? rundir : "/tmp", (int)getpid());
 	snprintf(outpath, sizeof(outpath), "%s/c19ms.%d.tzm", rundir ? rundir : "/tmp", (int)getpid());
 	snprintf(srcpath2, sizeof(srcpath2), "%s/c19ms.%d.src2", rundir ? rundir : "/tmp", (int)getpid());
+	snprintf(srcpath3, sizeof(srcpath3), "%s/c19ms.%d.src3", rundir ? rundir : "/tmp", (int)getpid());
 	(void)cimg, (void)clen;
 
 	if (ex.cas) {
@@ -467,10 +491,11 @@ main(int argc, char *argv[])
 		"key-length (a key of 1..255 bytes, or two of them, between two short keys; longer keys are dropped by design), pool-size (N distinct zone names of 19 and 31 bytes so that "
 		"the zone-name pool ends 1 entry below, at, 1/2/50 entries above 64 KiB and above 128 KiB); key-order (every sequence of 2..3 keys over {A AA B C}, most not ascending; reading: `tzmap check' calls a non-ascending source an error, so the compiler may "
 		"refuse it with an error (counted), but a source it accepts with exit 0 must look up completely; a key listed twice may go to either of its zones), two-files (a sorted "
-		"source given as two FILE arguments, as the usage `tzmap cc [FILE]...' allows); each with and without a final newline. Oracle: the compile ends with "
+		"source given as two FILE arguments, as the usage `tzmap cc [FILE]...' allows), files-in-every-order (two and three FILEs, each ascending on its own, in every order of "
+		"the files; the keys of all FILEs form one record array, so the same reading applies to their concatenation); each with and without a final newline. Oracle: the compile ends with "
 		"no AddressSanitizer report and exit 0 (reading: a source whose zone names exceed the 64 KiB the record format can address may instead be refused with an error; counted); in the compiled map EVERY key of the source looks up to exactly its zone string and %d absent probes are absent. non-trivial = all (each source "
 		"is at a seam of a buffer or field width)", NABSENT);
-	ex_meta("bound", "complete (both tiers): 198 + 160 + 6 + 1800 + 1020 + 24 sources");
+	ex_meta("bound", "complete (both tiers): 198 + 160 + 6 + 24 + 1800 + 1020 + 24 sources");
 
 	for (const char *fp = fams; *fp && !ex_expired(); fp++) {
 		for (long idx = 0; !ex_expired(); idx++) {
@@ -494,6 +519,7 @@ main(int argc, char *argv[])
 	}
 	unlink(srcpath);
 	unlink(srcpath2);
+	unlink(srcpath3);
 	unlink(outpath);
 	return ex_finish();
 }
